@@ -1397,7 +1397,82 @@ fn run(cfg: &Cfg) -> Report {
     }
     let mut rep = par_shards(cfg, "c02", tasks.len(), |idx, rng, rep| run_task(&tasks[idx], &u1, cfg, rng, rep));
     rep.extra.insert("u1_size".into(), json!(u1.len()));
+    // In-situ invariant sweep: the well-formedness invariant evaluated on live analysis states at the quiescent
+    // point "pointer-inference fixpoint finished" (programs and pipeline of the C13 workload).
+    let shards = cfg.tier.pick(64usize, 512usize);
+    let per_shard = cfg.tier.pick(8usize, 24usize);
+    let insitu = par_shards(cfg, "c02-insitu", shards, |idx, rng, rep| {
+        for i in 0..per_shard {
+            let optimize = (idx + i) % 2 == 0;
+            let exotic = rng.chance(1, 8);
+            let Ok((project, meta)) = guard(|| crate::c13::gen_program(rng, optimize, exotic)) else {
+                rep.inconclusive("insitu:generator-panic");
+                continue;
+            };
+            insitu_check(&project, &meta, rep);
+        }
+    });
+    rep.merge(insitu);
     rep
+}
+
+/// Evaluate the interval well-formedness invariant on every register / stack-slot value of every block-start state
+/// and on every def value/address the finished pointer inference exposes for `project`.
+fn insitu_check(project: &Project, meta: &crate::c13::Meta, rep: &mut Report) {
+    use crate::c13::{AbsVal, Itv};
+    let ex = match guard(|| crate::c13::analyse(project, meta)) {
+        Ok(ex) => ex,
+        Err(msg) => {
+            // a crash of the analysis is C13/C21 material, not an interval-invariant verdict
+            rep.inconclusive(&format!("insitu:analysis-panic:{}", panic_site(&msg)));
+            return;
+        }
+    };
+    let bad = |i: &Itv| -> Option<&'static str> {
+        if i.start > i.end {
+            Some("start>end")
+        } else if (i.start == i.end) != (i.stride == 0) {
+            Some("stride0-iff-singleton")
+        } else if i.stride != 0 && (i.end - i.start) % i.stride as i128 != 0 {
+            Some("end-off-stride")
+        } else {
+            None
+        }
+    };
+    let mut seen = 0u64;
+    let mut check = |what: String, a: &AbsVal, rep: &mut Report| {
+        for (i, kind) in a.abs.iter().map(|i| (i, "absolute part")).chain(a.rel.iter().map(|(_, _, i)| (i, "relative offset"))) {
+            seen += 1;
+            rep.eval();
+            if let Some(why) = bad(i) {
+                rep.violation(
+                    format!("insitu:{why}"),
+                    None,
+                    format!("ill-formed interval in a pointer-inference fixpoint state: {what}, {kind} = [{}, {}] stride {} ({why}); abstract value: {}\n{}", i.start, i.end, i.stride, a.text, crate::irb::show_program(&project.program.term)),
+                    json!({"kind": "insitu", "project": crate::irb::project_to_json(project), "meta": meta.to_json()}),
+                    project.program.term.subs.values().map(|s| s.term.blocks.len() as u64).sum(),
+                );
+            }
+        }
+    };
+    for (blk, abs) in &ex.blocks {
+        if let Some(ba) = abs {
+            for (r, a) in &ba.regs {
+                check(format!("register {r} at the start of block {blk}"), a, rep);
+            }
+            for ((off, size), a) in &ba.slots {
+                check(format!("stack slot [{off},{size}] at the start of block {blk}"), a, rep);
+            }
+        }
+    }
+    for (t, a) in ex.def_vals.iter().chain(ex.def_addrs.iter()) {
+        check(format!("value/address at def {t}"), a, rep);
+    }
+    rep.obs_n("insitu:intervals-checked", seen);
+    rep.obs("insitu:programs");
+    if seen > 0 {
+        rep.nontrivial(fp_of(&project.program) ^ 0x1251);
+    }
 }
 
 // ---------------------------------------------------------------------------
@@ -1426,6 +1501,13 @@ fn replay_members(inp: &Input, j: &Value) -> Vec<V> {
 
 fn replay(_cfg: &Cfg, case: &Value) -> Report {
     let mut rep = Report::new();
+    if case["kind"] == json!("insitu") {
+        if let Ok(project) = crate::irb::project_from_json(&case["project"]) {
+            let meta = crate::c13::Meta::from_json(&case["meta"]);
+            insitu_check(&project, &meta, &mut rep);
+        }
+        return rep;
+    }
     let Some(a) = replay_input(&case["a"]) else {
         rep.note("replay: cannot rebuild input a");
         return rep;
